@@ -14,7 +14,14 @@ import (
 	"golang.org/x/tools/go/packages"
 )
 
-const repoDir = "/repo"
+// repoDir is the tree the obligations are generated from: /repo's working tree. The must-fail corpus and the seeded
+// changes are run against a scratch git worktree of /repo instead (VERIF_REPO), so that /repo itself stays untouched.
+var repoDir = func() string {
+	if d := os.Getenv("VERIF_REPO"); d != "" {
+		return d
+	}
+	return "/repo"
+}()
 const modPath = "github.com/grafana/dskit"
 
 type World struct {
